@@ -15,7 +15,7 @@ TRUSTED_BASE = [
 ]
 ASSUMPTIONS = [
     "side condition of the property: no field larger than max_alloc_size (theorem: input length <= max_alloc)",
-    "container files: proved for the null codec (C11_container: same metadata, values and end of stream for any chunk plan); with compressed blocks chunk independence is checked on the crate only (compression libraries are outside the model)",
+    "container files: proved for the null codec (C11_container: same metadata, values and end of stream for any chunk plan); one compressed block: proved for any chunking of the source under the decoder contract (DecodeLoop.v: C05_compressed_block_read_back quantifies over the chunk state); whole compressed files on the crate (compression libraries are outside the model)",
 ]
 
 def run(ctx):
